@@ -1,10 +1,10 @@
 SPECIFICATION MCSpec
 CONSTANTS
-  Actors = {"a1", "a2"}
+  Actors = {"a1", "a2", "a3"}
   Victims = {}
-  Prog <- Pf1
+  Prog <- Pq3
   InitPoison = TRUE
-  Fix1 = FALSE
+  Fix1 = TRUE
   Fix2 = TRUE
 INVARIANTS RWExclusion NothingBad PopNeverEmpty GuardsBalance
 VIEW View
